@@ -305,6 +305,9 @@ def r_online_flow(rep, prog):
             fr = T.canon(sa[0][2][1])
             od = T.const_val(sa[0][2][2])
             good = fr == ("call", "llfree::trees::TreeId::as_frame", (("p", c.local_name(2) or "_2"),)) and od == tree_order
+            if not good and od == tree_order:
+                # the same frame spelled differently (FrameId(i.0 * TREE_FRAMES), ...)
+                good = lib.index_eq(prog, sa[0][2][1], ("call", "llfree::trees::TreeId::as_frame", (("p", 2, c.local_name(2) or "_2"),), None))
     rep.check(good, rule, "change_tree|fetch_free", "fetch_free(i) = stats_at(i.as_frame(), TREE_ORDER).free_frames",
               "fetch_free is " + detail, c.span)
     tmb = T.Terms(b, prog)
